@@ -189,7 +189,7 @@ func c09GenCase(r *vh.Rand, kind string, thorough bool) c09Case {
 }
 
 func c09HasOracle(kind string) bool {
-	return kind != "react" && kind != "host" && kind != "wfstraggler"
+	return kind != "react" && kind != "host" && kind != "wfstraggler" && !c09IsOptKind(kind) // the option families ask the oracle themselves (c09_opts.go)
 }
 
 // ---- the model's view of a case ----
@@ -272,13 +272,17 @@ type c09ChildRes struct {
 }
 
 func c09RunChild(c *c09Case, timeout time.Duration) c09ChildRes {
+	return c09RunChildEnv(c, timeout, "halt_on_error=1 exitcode=66 atexit_sleep_ms=50")
+}
+
+func c09RunChildEnv(c *c09Case, timeout time.Duration, gorace string) c09ChildRes {
 	exe, err := os.Executable()
 	if err != nil {
 		return c09ChildRes{Err: err.Error(), ExitCode: -1}
 	}
 	in, _ := json.Marshal(c)
 	cmd := exec.Command(exe)
-	cmd.Env = append(os.Environ(), "VERIF_C09_CHILD=1", "GORACE=halt_on_error=1 exitcode=66 atexit_sleep_ms=50")
+	cmd.Env = append(os.Environ(), "VERIF_C09_CHILD=1", "GORACE="+gorace)
 	cmd.Stdin = bytes.NewReader(in)
 	var so, se bytes.Buffer
 	cmd.Stdout, cmd.Stderr = &so, &se
@@ -579,6 +583,9 @@ func runC09(ctx *vh.Ctx) error {
 		if err := json.Unmarshal(ctx.Replay, &c); err != nil {
 			return fmt.Errorf("replay case: %v", err)
 		}
+		if c09IsOptKind(c.Kind) {
+			return c09EvaluateX(ctx, &c)
+		}
 		a, err := ask(&c)
 		if err != nil {
 			return err
@@ -587,14 +594,29 @@ func runC09(ctx *vh.Ctx) error {
 		return nil
 	}
 	// fixed opening: the agents and one object of every kind, then random kinds
-	kinds := []string{"react", "wfstraggler", "pregel", "dag", "workflow", "chain", "nested", "checkpoint", "host"}
-	n := ctx.N(64, 1200)
+	kinds := []string{"react", "wfstraggler", "optshare", "toollist", "pregel", "dag", "workflow", "chain", "nested", "checkpoint", "host"}
+	// after the opening the two call-option families are drawn twice as often as the others
+	pool := append(append([]string{}, kinds...), "optshare", "toollist")
+	n := ctx.N(96, 1600)
 	for i := 0; i < n && ctx.TimeLeft(); i++ {
 		kind := kinds[i%len(kinds)]
 		if i >= len(kinds) {
-			kind = kinds[ctx.Rng.Intn(len(kinds))]
+			kind = pool[ctx.Rng.Intn(len(pool))]
 		}
-		c := c09GenCase(ctx.Rng.Fork(), kind, ctx.Thorough())
+		r := ctx.Rng.Fork()
+		if c09IsOptKind(kind) {
+			var c c09Case
+			if kind == "optshare" {
+				c = c09GenOptShare(r)
+			} else {
+				c = c09GenToolList(r)
+			}
+			if err := c09EvaluateX(ctx, &c); err != nil {
+				return err
+			}
+			continue
+		}
+		c := c09GenCase(r, kind, ctx.Thorough())
 		a, err := ask(&c)
 		if err != nil {
 			return err
